@@ -404,3 +404,14 @@ Proof. induction hdrs as [|h t IH]; intros data H; [split; [cbn; lia|constructor
   cbn [length firstn]. split; [lia|]. constructor; [|exact I2]. split.
   - rewrite !len_app, len_repeatN, len_takeN. unfold room. lia.
   - apply takeN_app. reflexivity. Qed.
+
+(* requesting every PID of the PMT keeps every stream: the output section is the input section with the CRC recomputed *)
+Lemma keep_streams_all want ss : (forall e, In e ss -> In (epid e) want) -> keep_streams want ss = ss.
+Proof. intros H. unfold keep_streams. induction ss as [|e t IH]; [reflexivity|]. cbn [filter].
+  assert (E: existsb (N.eqb (epid e)) want = true).
+  { apply existsb_exists. exists (epid e). split; [apply H; left; reflexivity|apply N.eqb_refl]. }
+  rewrite E. f_equal. apply IH. intros x Hx. apply H. right. exact Hx. Qed.
+Theorem filtered_sec_all s want : (forall e, In e (sstreams s) -> In (epid e) want) ->
+  ser_sec_nocrc (filtered_sec s want) = ser_sec_nocrc s /\
+  crc (filtered_sec s want) = crc_model (ser_sec_nocrc s).
+Proof. intros H. unfold filtered_sec. rewrite (keep_streams_all want (sstreams s) H). split; reflexivity. Qed.
